@@ -40,7 +40,7 @@ type C18Case struct {
 	PreRead string `json:"api_pre_read,omitempty"`
 }
 
-var c18States = []string{"baseline", "rewrite", "corrupt", "delete", "directories", "dangling", "extra-files", "eacces", "empty", "blank"}
+var c18States = []string{"baseline", "rewrite", "corrupt", "delete", "directories", "dangling", "extra-files", "eacces", "empty", "blank", "huge"}
 
 const (
 	c18Root    = "W/root"
@@ -372,6 +372,13 @@ func materialiseC18(c *C18Case, root, state string) error {
 			}
 		case "corrupt":
 			if err := os.WriteFile(full, []byte("{{{ \x00 not: [valid"), 0o644); err != nil {
+				return err
+			}
+		case "huge":
+			// valid content, larger than any "small file" fast path
+			doc := map[string]any{"secret": fmt.Sprintf("H%d", k), "huge": true, "pad": strings.Repeat("0123456789abcdef", 70000)}
+			s, _ := gen.StreamText(procsim.Ext(p), []any{doc})
+			if err := os.WriteFile(full, []byte(s), 0o644); err != nil {
 				return err
 			}
 		case "empty":
